@@ -119,6 +119,8 @@ pub struct Runner<B: Backend> {
     pub tracked: Option<TrackedEngine<B::C>>,
     pub model: Model,
     log_pos: usize,
+    /// log indices of invocations that were still running when last judged
+    still_running: Vec<usize>,
     pub out: Outcome,
     pub hasher_seed: u64,
     step_no: u64,
@@ -212,6 +214,7 @@ impl<B: Backend> Runner<B> {
             tracked: None,
             model,
             log_pos: 0,
+            still_running: Vec::new(),
             out,
             hasher_seed,
             step_no: 0,
@@ -369,7 +372,10 @@ impl<B: Backend> Runner<B> {
     }
 
     /// ignore everything logged so far (used when a runner adopts an engine)
-    pub fn sync_log_pos(&mut self) { self.log_pos = self.sh.log.lock().len(); }
+    pub fn sync_log_pos(&mut self) {
+        self.log_pos = self.sh.log.lock().len();
+        self.still_running.clear();
+    }
 
     pub async fn open(&mut self) {
         let mut e = self.backend.open(self.hasher_seed).await;
@@ -389,7 +395,18 @@ impl<B: Backend> Runner<B> {
     pub fn mark_visited(&mut self, roots: &[u32]) {
         let e = self.model.epoch;
         for r in roots {
-            for x in self.closure(*r).0 {
+            // a read that the executor may abandon half way guarantees no
+            // visit of its target
+            let visited: Vec<u32> = {
+                let m = &self.model;
+                let p = &self.prog;
+                let leaves = |n: u32| m.leaf(p, n);
+                let mut o = Oracle::new(p, &leaves);
+                o.follow_abandoned = false;
+                let _ = o.node(*r);
+                o.memo.keys().copied().collect()
+            };
+            for x in visited {
                 self.model.visited_epoch.insert(x, e);
             }
         }
@@ -776,7 +793,30 @@ impl<B: Backend> Runner<B> {
     /// Judge every executor invocation logged since the last call.
     pub fn process_log(&mut self, ctx: StepCtx) {
         let log = self.sh.log.lock();
-        let new = &log[self.log_pos..];
+        // Invocations that were still running when they were last looked at
+        // (helpers spawned by an executor outlive a request that was cut
+        // short) are judged once they have ended; until then they wait.
+        let mut idxs: Vec<usize> = std::mem::take(&mut self.still_running);
+        idxs.extend(self.log_pos..log.len());
+        let mut waiting = Vec::new();
+        let mut ended: Vec<&crate::queries::Invocation> = Vec::new();
+        // seen before (as running): only its completion is new
+        let mut seen_before: BTreeSet<usize> = BTreeSet::new();
+        for i in idxs {
+            if log[i].status == InvStatus::Running && i < self.log_pos {
+                waiting.push(i);
+            } else {
+                if log[i].status == InvStatus::Running {
+                    waiting.push(i);
+                }
+                if i < self.log_pos {
+                    seen_before.insert(log[i].id);
+                }
+                ended.push(&log[i]);
+            }
+        }
+        self.still_running = waiting;
+        let new: &[&crate::queries::Invocation] = &ended;
         if std::env::var_os("VERIF_TRACE").is_some() {
             for inv in new {
                 eprintln!(
@@ -827,7 +867,10 @@ impl<B: Backend> Runner<B> {
         let mut updates: Vec<(u32, Vec<(u32, Val)>, u64)> = Vec::new();
         let mut last_completed = self.model.last_completed.clone();
         for inv in new {
-            self.out.executions += 1;
+            let recheck = seen_before.contains(&inv.id);
+            if !recheck {
+                self.out.executions += 1;
+            }
             let kind = p.nodes[inv.node as usize].kind;
             if kind == Kind::In {
                 viol.push((
@@ -851,7 +894,9 @@ impl<B: Backend> Runner<B> {
                     ),
                 )),
                 InvStatus::Dropped | InvStatus::Running => {
-                    self.out.engine_aborted_starts += 1;
+                    if !recheck {
+                        self.out.engine_aborted_starts += 1;
+                    }
                 }
                 InvStatus::Completed => {}
             }
@@ -878,8 +923,9 @@ impl<B: Backend> Runner<B> {
             if kind == Kind::Xt {
                 continue;
             }
-            // C03: the invocation must be justified
-            {
+            // C03: the invocation must be justified (judged when it was
+            // first seen)
+            if !recheck {
                 if let Some(prev) = last_completed.get(&inv.node) {
                     let justified = !self.check_c03
                         || prev
